@@ -141,6 +141,7 @@ theorem frame_jstep {cfg : Cfg} {s s' : St} {j : Nat} (hpf : cfg.pendFirst = tru
       · cases hs; exact frame_jStartCompact _ _ _
     · cases hs; exact frame_setJob _ _ _
     · cases hs; exact frame_setPc _ _ _
+    · cases hs; exact frame_setJob _ _ _
   case h_2 hpc => cases hs; exact frame_jPicked _ _
   case h_3 hpc => cases hs; exact frame_jRead _ _
   case h_4 hpc =>
@@ -179,6 +180,7 @@ theorem frame_jstep {cfg : Cfg} {s s' : St} {j : Nat} (hpf : cfg.pendFirst = tru
   case h_15 hpc => cases hs; exact frame_jUnlock _ _
   case h_16 hpc =>
     split at hs
+    · cases hs; exact frame_jUnpend _ _ _
     · cases hs; exact frame_jUnpend _ _ _
     · cases hs; exact frame_jUnpend _ _ _
   case h_17 hpc =>
